@@ -128,6 +128,8 @@ Record gst : Type := {
   g_B : marks; g_M : marks; g_C : marks;
   g_del : list (key * list krec);         (* delivered in this plugin lifetime, per partition, latest first *)
   g_steps : list sx;                      (* observations of this lifetime, latest first *)
+  g_ack : list krec;                      (* the records Commit was called for so far, over ALL lifetimes, latest first *)
+  g_snaps : list (list krec);             (* per step of g_steps the records acknowledged by then, latest first *)
   g_status : Z;
   g_bad : bool
 }.
@@ -160,9 +162,11 @@ Definition deliver (topics : list bytes) (c : gcfg) (st : gst) (k : key) (rs : l
   if gc_pipe c then
     let '(tr, s) := commit_trace topics (g_M st) (map (event_of topics) ds) in
     {| g_log := g_log st; g_B := g_B st; g_M := last_or (g_M st) tr; g_C := g_C st; g_del := d; g_steps := g_steps st;
+       g_ack := rev_append ds (g_ack st); g_snaps := g_snaps st;
        g_status := if s =? 0 then g_status st else s; g_bad := g_bad st |}
   else
     {| g_log := g_log st; g_B := g_B st; g_M := g_M st; g_C := g_C st; g_del := d; g_steps := g_steps st;
+       g_ack := g_ack st; g_snaps := g_snaps st;
        g_status := g_status st; g_bad := g_bad st |}.
 
 Definition fetched_head (c : gcfg) (x : key * eo) : key * eo :=
@@ -172,6 +176,7 @@ Definition fetched_head (c : gcfg) (x : key * eo) : key * eo :=
 Definition g_begin (topics : list bytes) (c : gcfg) (st : gst) : gst :=
   let m0 := map (fetched_head c) (g_B st) in
   let st0 := {| g_log := g_log st; g_B := g_B st; g_M := m0; g_C := m0; g_del := g_del st; g_steps := g_steps st;
+                g_ack := g_ack st; g_snaps := g_snaps st;
                 g_status := g_status st; g_bad := g_bad st |} in
   fold_left (fun s (f : gfetch) =>
                deliver topics c s (fst f) (filter (fun x : grec => from_commit (g_B st) (gc_oldest c) (fst x)) (snd f)))
@@ -193,7 +198,8 @@ Definition g_step (topics : list bytes) (nps : list Z) (c : gcfg) (st : gst) (o 
       fold_left (fun s (f : gfetch) =>
                    let ok := gfetch_ok topics nps c (g_log s) f in
                    let s1 := {| g_log := f :: g_log s; g_B := g_B s; g_M := g_M s; g_C := g_C s; g_del := g_del s;
-                                g_steps := g_steps s; g_status := g_status s; g_bad := g_bad s || negb ok |} in
+                                g_steps := g_steps s; g_ack := g_ack s; g_snaps := g_snaps s;
+                                g_status := g_status s; g_bad := g_bad s || negb ok |} in
                    deliver topics c s1 (fst f) (snd f)) fs st
   | GCommit ks =>
       if gc_pipe c then st else
@@ -201,18 +207,24 @@ Definition g_step (topics : list bytes) (nps : list Z) (c : gcfg) (st : gst) (o 
       let evs := concat (map (fun g : Z * list Z => map (fun o => (fst g, o)) (snd g)) groups) in
       let n := Z.of_nat (length evs) in
       if n =? 0 then st else
-      match pick evs (map (fun k => k mod n) ks) with
-      | Some calls =>
+      (* the records behind the events, in the same (group) order: the ones Commit is called for are acknowledged *)
+      let recs := concat (map snd (groups_of topics (g_del st))) in
+      match pick evs (map (fun k => k mod n) ks), pick recs (map (fun k => k mod n) ks) with
+      | Some calls, Some crecs =>
           let '(tr, s) := commit_trace topics (g_M st) calls in
+          let acked := firstn (length tr) crecs in
           {| g_log := g_log st; g_B := g_B st; g_M := last_or (g_M st) tr; g_C := g_C st; g_del := g_del st;
              g_steps := rev_append (map (sx_of_live (g_C st)) tr) (g_steps st);
+             g_ack := rev_append acked (g_ack st); g_snaps := rev_append (snaps_of (g_ack st) acked) (g_snaps st);
              g_status := if s =? 0 then g_status st else s; g_bad := g_bad st |}
-      | None => {| g_log := g_log st; g_B := g_B st; g_M := g_M st; g_C := g_C st; g_del := g_del st; g_steps := g_steps st;
+      | _, _ => {| g_log := g_log st; g_B := g_B st; g_M := g_M st; g_C := g_C st; g_del := g_del st; g_steps := g_steps st;
+                   g_ack := g_ack st; g_snaps := g_snaps st;
                    g_status := g_status st; g_bad := true |}
       end
   | GTick =>
       let '(b, cm) := tick_marks (g_M st) (g_B st, g_C st) in
       {| g_log := g_log st; g_B := b; g_M := g_M st; g_C := cm; g_del := g_del st; g_steps := sx_of_all b :: g_steps st;
+         g_ack := g_ack st; g_snaps := g_ack st :: g_snaps st;
          g_status := g_status st; g_bad := g_bad st |}
   | GRebalance => if gc_coop c then st else g_begin topics c st
   end.
@@ -223,13 +235,13 @@ Definition ggroup_of_sx (s : sx) : option (Z * list Z) :=
   | SL [SZ sid; SL offs] => option_map (fun l => (sid, l)) (opt_map as_Z offs)
   | _ => None
   end.
-Definition gobs_phase := (list (Z * list Z) * marks)%type.     (* groups, committed after Stop *)
+Definition gobs_phase := (list marks * list (Z * list Z) * marks)%type.     (* steps, groups, committed after Stop *)
 Definition gobs_phase_of_sx (s : sx) : option gobs_phase :=
   match s with
-  | SL [SL _; SL gs; cm] =>
-      match opt_map ggroup_of_sx gs, as_list mark_of_sx cm with
-      | Some g, Some m => Some (g, m)
-      | _, _ => None
+  | SL [SL steps; SL gs; cm] =>
+      match opt_map (as_list mark_of_sx) steps, opt_map ggroup_of_sx gs, as_list mark_of_sx cm with
+      | Some st, Some g, Some m => Some (st, g, m)
+      | _, _, _ => None
       end
   | _ => None
   end.
@@ -253,10 +265,10 @@ Record grun : Type := {
 
 Definition g_phase (topics : list bytes) (nps : list Z) (c : gcfg) (r : grun) (ph : gphase) : grun :=
   let st := r_st r in
-  let '(pred1, obs_rest, prev1) :=
+  let '(pred1, obs_rest, prev1, osteps) :=
     match r_obs r with
-    | (gs, cm) :: rest => (redelivery_pred topics c (r_prev r) (g_log st) gs, rest, cm)
-    | [] => (false, [], r_prev r)
+    | (steps, gs, cm) :: rest => (redelivery_pred topics c (r_prev r) (g_log st) gs, rest, cm, steps)
+    | [] => (false, [], r_prev r, [])
     end in
   let st1 := g_begin topics c st in
   let st2 := fold_left (g_step topics nps c) (fst ph) st1 in
@@ -264,8 +276,13 @@ Definition g_phase (topics : list bytes) (nps : list Z) (c : gcfg) (r : grun) (p
   let out := SL [SL (rev_append (g_steps st2) []);
                  SL (map (fun g : Z * list Z => SL [SZ (fst g); SL (map SZ (snd g))]) (g_groups topics c st2));
                  sx_of_all b] in
-  {| r_st := {| g_log := g_log st2; g_B := b; g_M := []; g_C := []; g_del := []; g_steps := []; g_status := g_status st2; g_bad := g_bad st2 |};
-     r_out := out :: r_out r; r_obs := obs_rest; r_prev := prev1; r_pred := r_pred r && pred1 |}.
+  (* what was marked (after every Commit) and committed (at every tick, after Stop) in this lifetime belongs to a
+     record acknowledged by then, under that record's own topic and partition *)
+  let pred2 := acks_pred (rev_append (g_snaps st2) []) osteps
+               && (match r_obs r with [] => true | _ => forallb (head_of_some_record (g_ack st2)) prev1 end) in
+  {| r_st := {| g_log := g_log st2; g_B := b; g_M := []; g_C := []; g_del := []; g_steps := [];
+                g_ack := g_ack st2; g_snaps := []; g_status := g_status st2; g_bad := g_bad st2 |};
+     r_out := out :: r_out r; r_obs := obs_rest; r_prev := prev1; r_pred := r_pred r && pred1 && pred2 |}.
 
 Definition all_recs (log : list gfetch) : list krec := concat (map (fun f : gfetch => map fst (snd f)) log).
 
@@ -277,10 +294,12 @@ Definition c10_group_run (case obs : sx) : verdict :=
           match opt_map (gfetch_of_sx topics) init, opt_map (gphase_of_sx topics) phs with
           | Some fs, Some phases =>
               if negb (Z.of_nat (length nps) =? Z.of_nat (length topics)) then BadCase else
-              let st0 := {| g_log := []; g_B := []; g_M := []; g_C := []; g_del := []; g_steps := []; g_status := 0; g_bad := false |} in
+              let st0 := {| g_log := []; g_B := []; g_M := []; g_C := []; g_del := []; g_steps := []; g_ack := []; g_snaps := [];
+                            g_status := 0; g_bad := false |} in
               (* the log before the first Start: nobody is listening *)
               let st1 := fold_left (fun s (f : gfetch) =>
                                       {| g_log := f :: g_log s; g_B := []; g_M := []; g_C := []; g_del := []; g_steps := [];
+                                         g_ack := []; g_snaps := [];
                                          g_status := 0; g_bad := g_bad s || negb (gfetch_ok topics nps c (g_log s) f) |}) fs st0 in
               let ophases := match obs with
                              | SL [SZ _; SL ps] => match opt_map gobs_phase_of_sx ps with Some l => l | None => [] end
@@ -291,7 +310,7 @@ Definition c10_group_run (case obs : sx) : verdict :=
               if g_bad (r_st r) then BadCase else
               let model := SL [SZ (g_status (r_st r)); SL (rev_append (r_out r) [])] in
               let recs := all_recs (g_log (r_st r)) in
-              let commits := map snd ophases in
+              let commits := map (fun x : gobs_phase => snd x) ophases in
               let pred :=
                 r_pred r
                 && (match r_obs r with [] => true | _ => false end)
